@@ -439,7 +439,7 @@ def pdag_rules(rep, prog):
     i = ("elem", PI)
     nb = ("call", U + "neighbors", (i, PP_), (("A", PP_), ("i", i)))
     raises = [r for r in S.select("raise", qname=q) if r.exctype == "ValueError"]
-    hit = [r for r in raises if r.path and r.path[-1][1] is True and npred(r.path[-1][0], True) == ("nonempty", nb)]
+    hit = [r for r in raises if r.path and npred(r.path[-1][0], r.path[-1][1]) == ("nonempty", nb)]
     ext = [c for c in S.select("call", qname=q) if c.target == U + "pdag_to_dag"]
     ok = len(hit) == 1 and len(ext) == 1 and hit[0].order < ext[0].order and not getattr(ext[0], "in_try", None)
     rep.check("GUARD.undirected-at-target", ok, fwhere(f, hit[0].node if hit else None), "ValueError when some target has a neighbour (undirected edge) in P, before the extension search",
